@@ -86,6 +86,13 @@ class Registry:
         self.lemmas: list = []
         self.ufuns: Dict[str, tuple] = {}
         self.writer_rules: list = []
+        self.dispatch: Dict[str, Contract] = {}
+
+    def dispatch_contract(self, key, **kw):
+        """Assumed contract used at call sites that may dispatch to any override of the method (never verified itself)."""
+        kw["verify"] = False
+        self.dispatch[key] = Contract(key, **kw)
+        return self.dispatch[key]
 
     def writers(self, prop, attr, allowed, why=""):
         """Whole-tree syntactic obligation: attribute `attr` is stored to only inside the listed functions."""
@@ -124,6 +131,7 @@ inline = REG.inline_fn
 invariant = REG.invariant
 ufun = REG.ufun
 writers = REG.writers
+dispatch_contract = REG.dispatch_contract
 
 
 def attr_types(d):
